@@ -234,3 +234,52 @@ Proof.
     try (intros D; discriminate D); try exact H;
     try (intros D; destruct (H D) as [H1 H2]; split; congruence).
 Qed.
+
+Lemma run_task_pre_sid c k : pre_sid c -> pre_sid (run_task c k).
+Proof.
+  unfold pre_sid. intros H. destruct k; unfold run_task;
+  unfold_model; cbv zeta; crush_ifs; autorewrite with frame; cbn; autorewrite with frame; cbn; exact H.
+Qed.
+
+Lemma run_tasks_pre_sid : forall n c, pre_sid c -> pre_sid (run_tasks n c).
+Proof.
+  induction n as [|n IH]; intros c H; simpl; [exact H|].
+  destruct (closed c); [exact H|]. destruct (pending c) as [|k r] eqn:Ep; [exact H|].
+  apply IH. apply run_task_pre_sid. exact H.
+Qed.
+
+Lemma run_task_recv_enc c k : recv_enc (run_task c k) = recv_enc c.
+Proof. destruct k; unfold run_task; frame. Qed.
+Lemma run_tasks_recv_enc : forall n c, recv_enc (run_tasks n c) = recv_enc c.
+Proof.
+  induction n as [|n IH]; intros c; simpl; [reflexivity|].
+  destruct (closed c); [reflexivity|]. destruct (pending c) as [|k r]; [reflexivity|].
+  rewrite IH, run_task_recv_enc. reflexivity.
+Qed.
+
+Lemma run_tasks_nopending : forall n c, pending c = [] -> run_tasks n c = c.
+Proof. destruct n; intros c H; simpl; [reflexivity|]. rewrite H. destruct (closed c); reflexivity. Qed.
+
+Definition allowed_clear (t : Z) : Prop := t = 20 \/ t = 21 \/ 30 <= t <= 49.
+
+(* one packet received while still in clear, from any state in which no authentication object, task or
+   EXT_INFO permission exists yet *)
+Lemma dispatch_clear fixed c seq t cls :
+  recv_enc c = false -> auth c = 0 -> can_recv_ext c = false -> pending c = [] ->
+  let c' := dispatch fixed c seq t cls in
+  closed c' = true \/
+  ((recv_enc c' = false -> auth c' = 0 /\ can_recv_ext c' = false /\ pending c' = []) /\
+   (strict c = true -> allowed_clear t) /\
+   (strict c = false -> strict c' = true -> t = 20 /\ seq = 0 /\ sid c = false)).
+Proof.
+  intros Hr Ha He Hp. cbv zeta.
+  unfold_model; cbv zeta; rewrite ?Hr, ?Ha, ?He, ?Hp; crush_ifs; autorewrite with frame; cbn; autorewrite with frame; cbn;
+    rewrite ?Hr, ?Ha, ?He, ?Hp;
+    try (left; reflexivity);
+    right; unfold allowed_clear; (split; [|split]);
+    try (intros; repeat split; congruence);
+    try (intros; lia);
+    try (intros; discriminate);
+    try (unfold is_deleg in *; intros; lia);
+    try (intros; repeat split; try lia; destruct (sid c); simpl in *; congruence).
+Admitted.
